@@ -10,6 +10,7 @@ from sa.model import AnalysisError, ClassInfo, FuncInfo, Model, walk_no_nested
 from sa.oracles import iso14229
 from sa.report import Report
 from sa.uds_rules import parse_pdu_request_consistency
+from sa.util import byte_fn
 
 TITLE = "Genuine replies are always accepted, foreign or stale replies always refused"
 EXC = "gallia.services.uds.core.exception"
@@ -208,36 +209,6 @@ def foreign_match(ca: CodecAnalyser, mt: "Matcher", ra: ClassAnalysis, pa: Class
                     problems.append(f"a path accepts without requiring equality of request.{sorted(required - eq_assumed)} "
                                     f"(assumed on this path: {[f.text for f in new if f.kind == 'opaque'][:4]})")
     return problems, n_eval
-
-
-def byte_fn(m: Model, mod, expr: ast.expr, sym: str):
-    """Compile a pure integer expression over one PDU byte (written `sym`, e.g. `self.pdu[0]`) into a python function of that
-    byte, for exhaustive evaluation over 0..255.  Returns None when the expression is outside this small language."""
-    def ev(e: ast.expr, b: int):
-        if ast.unparse(e) == sym:
-            return b
-        c = m.try_fold(mod, e)
-        if isinstance(c, int):
-            return int(c)
-        if isinstance(e, ast.BinOp):
-            a, c2 = ev(e.left, b), ev(e.right, b)
-            ops = {ast.Add: lambda x, y: x + y, ast.Sub: lambda x, y: x - y, ast.BitAnd: lambda x, y: x & y, ast.BitOr: lambda x, y: x | y,
-                   ast.BitXor: lambda x, y: x ^ y, ast.Mod: lambda x, y: x % y, ast.LShift: lambda x, y: x << y, ast.RShift: lambda x, y: x >> y}
-            if type(e.op) not in ops:
-                raise NotImplementedError(ast.unparse(e))
-            return ops[type(e.op)](a, c2)
-        if isinstance(e, ast.IfExp) and isinstance(e.test, ast.Compare) and len(e.test.ops) == 1:
-            l, rr = ev(e.test.left, b), ev(e.test.comparators[0], b)
-            t = {ast.Lt: l < rr, ast.LtE: l <= rr, ast.Gt: l > rr, ast.GtE: l >= rr, ast.Eq: l == rr, ast.NotEq: l != rr}.get(type(e.test.ops[0]))
-            if t is None:
-                raise NotImplementedError(ast.unparse(e))
-            return ev(e.body if t else e.orelse, b)
-        raise NotImplementedError(ast.unparse(e))
-    try:
-        ev(expr, 0)
-    except NotImplementedError:
-        return None
-    return lambda b: ev(expr, b)
 
 
 def sid_operand(m: Model, fn: FuncInfo, e: ast.expr, var_cls: dict[str, ClassInfo]):
